@@ -258,6 +258,7 @@ static int tap_main(int argc, char* const* argv)
     std::vector<Item> taproot_input_stack; // ScriptWitness variant
     CScript taproot_inputs;                // manual variant
     size_t witness_stack_count = 0;
+    std::vector<size_t> sig_marks;         // where among the spend arguments %SIG% marks the place of the signature
     if (have_txs && sargc == 0) {
         btc_logf("- no spend arguments; TAPROOT mode\n");
         is_taproot = true;
@@ -273,6 +274,7 @@ static int tap_main(int argc, char* const* argv)
         }
         while (sai < ca.l.size()) {
             if (std::string(ca.l[sai]) == "%SIG%") {
+                sig_marks.push_back(taproot_input_stack.size());
                 taproot_input_stack.push_back(PLACEHOLDER_SIGNATURE);
                 taproot_inputs << PLACEHOLDER_SIGNATURE;
                 btc_logf("  #%zu: <placeholder signature>\n", witness_stack_count);
@@ -442,9 +444,10 @@ static int tap_main(int argc, char* const* argv)
     // if we have transaction data, replace the witness stack for the appropriate input
     if (have_txs) {
         if (premade_sig.size()) {
-            // insert signature
-            taproot_input_stack.insert(taproot_input_stack.begin(), premade_sig);
-        } else if (privkey.size() == 0) {
+            // insert signature: where %SIG% marks its place among the spend arguments, otherwise at the bottom
+            for (size_t m : sig_marks) taproot_input_stack[m] = premade_sig;
+            if (sig_marks.empty()) taproot_input_stack.insert(taproot_input_stack.begin(), premade_sig);
+        } else if (privkey.size() == 0 && sig_marks.empty()) {
             // append a placeholder sig to the witness stack, or the instance system won't recognize the output type
             taproot_input_stack.insert(taproot_input_stack.begin(), PLACEHOLDER_SIGNATURE);
         }
@@ -505,7 +508,8 @@ static int tap_main(int argc, char* const* argv)
             btc_logf("privkey: %s\n", HEXC(privkey));
             btc_logf("pubkey: %s\n", HEXC(pk));
             btc_logf("signature: %s\n", HEXC(sig));
-            taproot_input_stack.insert(taproot_input_stack.begin(), sig);
+            for (size_t m : sig_marks) taproot_input_stack[m] = sig;
+            if (sig_marks.empty()) taproot_input_stack.insert(taproot_input_stack.begin(), sig);
 
             mtx.vin[instance.txin_index].scriptWitness.stack = taproot_input_stack;
             instance.tx = MakeTransactionRef(mtx);
